@@ -433,6 +433,83 @@ impl<A: All2All> Votor<A> {
     }
 }
 
+/// Snapshot of one slot's voting state (verification harness only).
+#[cfg(feature = "verif-hooks")]
+#[derive(Clone, Debug, PartialEq, Eq)]
+pub struct VerifSlotSnapshot {
+    pub slot: Slot,
+    pub voted: bool,
+    pub voted_notar: Option<BlockHash>,
+    pub bad_window: bool,
+    pub block_notarized: Option<BlockHash>,
+    pub parents_ready: Vec<BlockId>,
+    pub received_shred: bool,
+    pub pending_block: Option<(BlockHash, BlockId)>,
+    pub retired: bool,
+}
+
+/// Thin wrappers that run one private handler once (verification harness only).
+///
+/// They remove the `select!` nondeterminism of [`Votor::voting_loop`] from the
+/// correspondence check; the loop itself is unchanged.
+#[cfg(feature = "verif-hooks")]
+impl<A: All2All> Votor<A> {
+    /// Delivers one pool event, exactly as [`Votor::voting_loop`] would.
+    pub async fn verif_pool_event(&mut self, event: PoolEvent) {
+        self.handle_pool_event(event).await;
+    }
+
+    /// Delivers one blockstore event, exactly as [`Votor::voting_loop`] would.
+    pub async fn verif_blockstore_event(&mut self, event: BlockstoreEvent) {
+        self.handle_blockstore_event(event).await;
+    }
+
+    /// Delivers one timeout event, exactly as [`Votor::voting_loop`] would.
+    pub async fn verif_timeout(&mut self, slot: Slot, crashed_leader: bool) {
+        let event = if crashed_leader {
+            VotorTimeout::TimeoutCrashedLeader(slot)
+        } else {
+            VotorTimeout::Timeout(slot)
+        };
+        self.handle_timeout_event(event).await;
+    }
+
+    /// Removes and returns the timeouts queued so far as `(slot, crashed_leader)`.
+    pub fn verif_drain_timeouts(&mut self) -> Vec<(Slot, bool)> {
+        let mut out = Vec::new();
+        while let Ok(event) = self.timeout_receiver.try_recv() {
+            out.push(match event {
+                VotorTimeout::Timeout(slot) => (slot, false),
+                VotorTimeout::TimeoutCrashedLeader(slot) => (slot, true),
+            });
+        }
+        out
+    }
+
+    /// Returns the highest final-cert slot and the per-slot state in slot order.
+    pub fn verif_snapshot(&self) -> (Slot, Vec<VerifSlotSnapshot>) {
+        let slots = self
+            .slots
+            .iter()
+            .map(|(slot, s)| VerifSlotSnapshot {
+                slot: *slot,
+                voted: s.voted,
+                voted_notar: s.voted_notar.clone(),
+                bad_window: s.bad_window,
+                block_notarized: s.block_notarized.clone(),
+                parents_ready: s.parents_ready.iter().cloned().collect(),
+                received_shred: s.received_shred,
+                pending_block: s
+                    .pending_block
+                    .as_ref()
+                    .map(|b| (b.hash.clone(), b.parent.clone())),
+                retired: s.retired,
+            })
+            .collect();
+        (self.highest_final_cert_slot, slots)
+    }
+}
+
 /// Internal timeout events generated by [`Votor`] itself.
 #[derive(Debug)]
 enum VotorTimeout {
